@@ -540,6 +540,10 @@ func genGE(cfg *config, r *rng, i int, s *sink) string {
 			}
 			s.count("ge.rt.horizon_band")
 		}
+		if r.chance(1, 40) {
+			dist = 0 // the centre itself: the origin of the plane
+			s.count("ge.rt.centre")
+		}
 		var lat, lon float64
 		az := r.float01() * 360
 		if r.chance(1, 6) {
@@ -603,6 +607,24 @@ func genGE(cfg *config, r *rng, i int, s *sink) string {
 		geodesic.WGS84.Direct(latC, lonC, az1, (1-fa)*la, &a2la, &a2lo, nil)
 		geodesic.WGS84.Direct(latC, lonC, az2, -fb*lb, &b1la, &b1lo, nil)
 		geodesic.WGS84.Direct(latC, lonC, az2, (1-fb)*lb, &b2la, &b2lo, nil)
+		if math.Abs(latC) > 84 && r.chance(1, 3) {
+			// segment A starts exactly at the pole (latitude ±90 is a latitude like any other) and runs
+			// down the meridian of C to a point beyond it
+			sgn := 1.0
+			if latC < 0 {
+				sgn = -1
+			}
+			a1la, a1lo = sgn*90, lonC
+			a2la, a2lo = latC-sgn*(0.5+r.float01()*4), lonC
+			insA = true
+			az2 = 25 + r.float01()*130
+			if r.bool() {
+				az2 += 180
+			}
+			geodesic.WGS84.Direct(latC, lonC, az2, -fb*lb, &b1la, &b1lo, nil)
+			geodesic.WGS84.Direct(latC, lonC, az2, (1-fb)*lb, &b2la, &b2lo, nil)
+			s.count("ge.ix.pole_end")
+		}
 		if math.Abs(a1lo-a2lo) > 180 || math.Abs(b1lo-b2lo) > 180 || math.Abs(a1lo-b1lo) > 180 {
 			// straddles the 180th meridian: outside the property
 			return "sd " + hexFloats(10, 20)
